@@ -184,6 +184,20 @@ class HashV(object):
         self.v = v
 
 
+class NF(object):
+    """non-finite numpy float (numpy arithmetic yields inf/nan with a warning where Python
+    floats raise): kind in {'pinf', 'ninf', 'nan'}.  Only produced when a contract switches
+    `numpy_floats` on for code whose operands are numpy scalars."""
+    def __init__(self, kind):
+        self.kind = kind
+
+    def flipped(self):
+        return NF({'pinf': 'ninf', 'ninf': 'pinf', 'nan': 'nan'}[self.kind])
+
+    def __repr__(self):
+        return 'NF(%s)' % self.kind
+
+
 class _Missing(object):
     def __repr__(self):
         return '<missing>'
@@ -274,6 +288,7 @@ class Interp(object):
         self.warn_calls = 0
         self.steps = 0
         self.merge = False      # if-merging into guarded list elements (set by contracts)
+        self.numpy_floats = False   # division by zero / log(0) yield inf/nan values instead of raising
 
     # ---------------------------------------------------------- modules
     def module(self, name):
@@ -801,6 +816,8 @@ class Interp(object):
         raise Unsupported("unary operator")
 
     def neg(self, v):
+        if isinstance(v, NF):
+            return v.flipped()
         if isinstance(v, bool):
             return -int(v)
         if isinstance(v, (int, Fraction, Re, Cx, sym.INF_T)):
@@ -962,9 +979,16 @@ class Interp(object):
             a = sym.If(a, 1, 0)
         if isinstance(b, z3.BoolRef):
             b = sym.If(b, 1, 0)
+        if isinstance(a, NF) or isinstance(b, NF):
+            return self.nf_binop(opn, a, b)
         na = isinstance(a, (int, Fraction, Re, Cx))
         nb = isinstance(b, (int, Fraction, Re, Cx))
         if na and nb:
+            if opn == 'Div' and self.numpy_floats and not isinstance(a, Cx) and not isinstance(b, Cx):
+                z = sym.eq(b, 0)
+                if (z is True) or (not isinstance(z, bool) and self.ctx.decide(z)):
+                    return self.nf_signed(a)
+                return sym.div(a, b)
             return self.num_binop(opn, a, b)
         if isinstance(a, sym.INF_T) or isinstance(b, sym.INF_T):
             raise Unsupported("arithmetic on infinity")
@@ -1003,6 +1027,49 @@ class Interp(object):
         if a is None or b is None:
             self.raise_py('TypeError', "unsupported operand type(s) for %s: %s and %s" % (opn, _tn(a), _tn(b)))
         raise Unsupported("binary %s on %s and %s" % (opn, _tn(a), _tn(b)))
+
+    def _sign(self, x):
+        """-1, 0 or 1 for a real x (forks on symbolic values)"""
+        if isinstance(x, (int, Fraction)):
+            return (x > 0) - (x < 0)
+        if self.ctx.decide(sym.lt(0, x)):
+            return 1
+        if self.ctx.decide(sym.lt(x, 0)):
+            return -1
+        return 0
+
+    def nf_signed(self, x, flip=False):
+        """x * inf"""
+        sg = self._sign(x)
+        if flip:
+            sg = -sg
+        return NF('pinf' if sg > 0 else ('ninf' if sg < 0 else 'nan'))
+
+    def nf_binop(self, opn, a, b):
+        an, bn = isinstance(a, NF), isinstance(b, NF)
+        if (an and a.kind == 'nan') or (bn and b.kind == 'nan'):
+            return NF('nan')
+        if opn in ('Add', 'Sub'):
+            if bn and opn == 'Sub':
+                b = b.flipped()
+            if an and bn:
+                return a if a.kind == b.kind else NF('nan')
+            return a if an else b
+        if opn == 'Mult':
+            if an and bn:
+                return NF('pinf' if a.kind == b.kind else 'ninf')
+            nf, x = (a, b) if an else (b, a)
+            return self.nf_signed(x, flip=(nf.kind == 'ninf'))
+        if opn == 'Div':
+            if an and bn:
+                return NF('nan')
+            if bn:
+                return 0
+            sg = self._sign(b)
+            if sg == 0:
+                return a
+            return a if sg > 0 else a.flipped()
+        raise Unsupported("operator %s on a non-finite value" % opn)
 
     def num_binop(self, opn, a, b):
         if opn == 'Add':
@@ -1084,6 +1151,15 @@ class Interp(object):
             a = int(a)
         if isinstance(b, bool):
             b = int(b)
+        if isinstance(a, NF) or isinstance(b, NF):
+            def rank(v):
+                if isinstance(v, NF):
+                    return {'pinf': 2, 'ninf': -2, 'nan': None}[v.kind]
+                return 0
+            ra, rb = rank(a), rank(b)
+            if ra is None or rb is None:
+                return False
+            return {'Lt': ra < rb, 'LtE': ra <= rb, 'Gt': ra > rb, 'GtE': ra >= rb}[opn]
         num = (int, Fraction, Re, sym.INF_T)
         if isinstance(a, num) and isinstance(b, num):
             return {'Lt': sym.lt, 'LtE': sym.le, 'Gt': sym.gt, 'GtE': sym.ge}[opn](a, b)
@@ -1114,6 +1190,8 @@ class Interp(object):
         raise Unsupported("identity comparison of values (%s is %s)" % (_tn(a), _tn(b)))
 
     def py_eq(self, a, b):
+        if isinstance(a, NF) or isinstance(b, NF):
+            return isinstance(a, NF) and isinstance(b, NF) and a.kind == b.kind and a.kind != 'nan'
         if a is None or b is None:
             if isinstance(a, Obj) or isinstance(b, Obj):
                 o = a if isinstance(a, Obj) else b
